@@ -95,6 +95,11 @@ OpBlockerAlloc(r, b) ==
   LET r1 == [r EXCEPT !.blockers = @ \cup {b}]
   IN IF r.started /\ r.blockers = {} THEN RealStop(r1) ELSE r1
 
+\* upump_blocker_alloc when the allocation of the blocker is refused: returns NULL, nothing happened
+\* (variant allocfail_stops: the pump is suspended before the allocation is attempted)
+OpBlockerAllocRefused(r) ==
+  IF Variant = "allocfail_stops" /\ r.started /\ r.blockers = {} THEN RealStop(r) ELSE r
+
 OpBlockerFree(r, b) ==
   LET r1 == [r EXCEPT !.blockers = @ \ {b}]
   IN IF r1.started /\ r1.blockers = {} /\ Variant # "bfree_no_restart"
@@ -147,6 +152,7 @@ SetStatus(s) == ~freed /\ Apply(OpSetStatus(Cur, s), C("status", IF s THEN 1 ELS
 GetStatus == ~freed /\ Apply([Cur EXCEPT !.ret = IF status THEN 1 ELSE 0], C("getstatus", 0, "none"))
 BlockerAlloc(b) == ~freed /\ b \notin blockers /\ Apply(OpBlockerAlloc(Cur, b), C("balloc", b, "none"))
 BlockerFree(b)  == ~freed /\ b \in blockers /\ Apply(OpBlockerFree(Cur, b), C("bfree", b, "none"))
+BlockerAllocRefused(b) == ~freed /\ b \notin blockers /\ Apply(OpBlockerAllocRefused(Cur), C("ballocfail", b, "none"))
 Free == ~freed /\ Apply(OpFree(Cur), C("free", 0, "none"))
 \* the harness makes the loop deliver one event to the pump: only legal while active
 Dispatch == active /\ Apply(OpFire(Cur, "none"), C("dispatch", 0, "none"))
@@ -179,6 +185,7 @@ Next ==
   \/ GetStatus
   \/ \E b \in Blockers : BlockerAlloc(b)
   \/ \E b \in Blockers : BlockerFree(b)
+  \/ \E b \in Blockers : BlockerAllocRefused(b)
   \/ Dispatch
   \/ \E a \in Acts : Poll(a)
   \/ \E a \in Acts2 : Poll2(a)
